@@ -54,6 +54,8 @@ impl Env {
             .iter()
             .map(|m| match m.op {
                 MutOp::Add(n) | MutOp::ToDir(n) => n + 1,
+                // a new link may expose the tree once more beneath it
+                MutOp::Retarget(_) => reach + 1,
                 _ => 1,
             })
             .sum();
